@@ -55,6 +55,21 @@ OUTSIDE = {
     "C15-22": "init_device() runs the path through abspath(), which cancels 'link/..' textually: handles of a device that was opened on the requested path behave as before; 'opened on exactly the requested path' is C19's statement (and C16 routes units by the inode behind the handle), and both catch it",
     "C16-21": "an attach to a unit reporting MCHNGR adds entries to the shared module-level command set: the table object selected for each device type is still the right one; 'every name a set exposes is T10's and stays so while the library is used' is C14's statement, and C14 catches it (tables walked again after a usage phase with all INQUIRY flag patterns)",
     "C09-11": "copy.deepcopy(command) shares the decoded result: no other command is created or used, the CDBs and buffers C09 speaks of stay independent; the returned command and its result are C13's observation point, and C13 catches it",
+    "C01-24": "the facade falls back to MODE SENSE(10)'s operation code when the device's table (MMC) has no MODE_SENSE_6: every command built from a table that defines it is unchanged; which operation code a facade method uses on a table that does not list its command is C14's statement (every name a set exposes is T10's, the CDB length is the group's) and C14 catches it (facade calls on every table, the CDB at the binding judged by the reference)",
+    "C01-26": "SCSIDevice pads six and ten byte CDBs to twelve bytes when the node's name is sr<N> / scd<N>: cmd.cdb, C01's observation point, stays right; the bytes that reach the binding of a device opened on a given path are C19's observation (the first command reaches the binding unaltered, on every node name), and C19 catches it",
+    "C02-25": "EXTENDED COPY takes its PARAMETER LIST LENGTH from a table of descriptor lengths instead of from the list it built: the CDB still decodes to the value build_cdb was given; 'the CDB's parameter list length equals the length of the list' is C05's statement, and C05 catches it",
+    "C08-26": "ISCSIDevice.__exit__ / SCSI.__exit__ return the status of the logout, so a failed logout makes the with block swallow the CheckCondition: the condition itself is built, printed and carries the right triple; 'a non-GOOD outcome reaches the caller' is C07's statement, and C07 catches it (logouts that fail at the end of a with block)",
+    "C09-26": "OpCode builds its service-action enumeration on first use, from the caller's dict as it is then: commands do not share state with each other; 'an enumeration is the snapshot of the dictionary it was made from' is C18's statement, and C18 catches it",
+    "C12-24": "the replug check reads descriptor 0 as 'no descriptor': data written and read back is unchanged in every history C12 plays; following a replaced node is C15's statement, and C15 catches it (a process without standard input)",
+    "C12-26": "the facade returns normally after CHECK CONDITION / RECOVERED ERROR, also for deferred errors: the target model's data is read back intact in every history without injected conditions; 'every non-GOOD status raises' is C07's statement, and C07 catches it",
+    "C14-25": "the SG_IO transport sends a home-made REQUEST SENSE whose operation code byte is never written: every table value and derived length is unchanged; 'one execute reaches the binding once' is C07's observation, and C07 catches it",
+    "C14-26": "the iSCSI transport re-sends after BUSY / TASK SET FULL and judges the first task: the status table is unchanged; the outcome reported for a status history is C07's statement, and C07 catches it",
+    "C16-25": "ISCSIDevice keeps its url without the CHAP secret and logs in with that: the command set selected for the INQUIRY data that comes back is right; 'the device is opened on exactly the url the caller gave' is C19's statement, and C19 catches it",
+    "C02-24": "ATA PASS-THROUGH(12) with an lba of 2**24 or more: the lba field of that CDB has 24 bits, C02 quantifies over in-range assignments (the unchanged library drops the upper bits, the changed one adds them into a neighbour; neither is a value the CDB can decode to)",
+    "C05-25": "superseded by the repair e4bbb63 it led to: the change needs iSCSI names of at most 15 bytes, for which the unchanged library itself built TransportIDs below SPC's minimum length; since the repair every TransportID has at least 24 bytes, the padding the change adds never happens and the library's output with and without it is identical (C05 generates such names now)",
+    "C08-25": "asc / ascq as read-only properties: every condition built, copied, printed or pickled by this version is unchanged; what fails is loading a pickle stream written by the previous release, and C08 quantifies over sense buffers, not over releases",
+    "C12-25": "a failed re-attach s(dev) leaves the facade on the previous device instead of the new one: no property states which device a facade is on after an attach that raised (C16 speaks of the command set after an attach, C13 of 'the attached device'), both answers are defensible, so a monitor demanding one of them could raise an alarm on correct code",
+    "C14-24": "a new command class and facade method (REPORT SUPPORTED OPERATION CODES) with one field laid out in the wrong byte: no existing table, function or class changes; C14 quantifies over the named table entries and the 256 operation codes, C01/C13 over the commands and the 38 facade methods the library has, and the reference has no statement about a command that does not exist in the unchanged tree",
 }
 
 
